@@ -360,3 +360,55 @@ def walk_file(pid, scn, gh_exe, path, tag, extra_plan=None, timeout=3600):
         except Exception:
             pass
     return {"summary": summary, "rc": r.returncode, "note": note, "stderr": r.stderr.decode(errors="replace")[-4000:]}
+
+
+def record_pairs(pid, group, gh_exe, seed, pairs, families=None):
+    """C06 code -> spec: random pairs of real objects; records validated by PairTrace.tla.
+    -> dict(records, accepted, rejected[], equal_pairs, tlc_states)"""
+    import re
+    directed, kind = GROUPS[group]
+    d = vf.fresh_dir(os.path.join(vf.RUN, pid, "pairs-" + group))
+    out = {"records": 0, "accepted": 0, "rejected": [], "equal_pairs": 0, "tlc_states": 0, "crashes": []}
+    for fam in (families if families is not None else range(N_FAMILIES[group])):
+        plan = {"group": group, "family_index": fam, "seed": int(seed) * 100 + fam, "pairs": pairs, "kind": kind,
+                "directed": directed, "crash_note": os.path.join(d, "crash%d.json" % fam)}
+        planf = os.path.join(d, "plan%d.json" % fam)
+        with open(planf, "w") as f:
+            json.dump(plan, f)
+        rp = os.path.join(d, "pairs%d.ndjson" % fam)
+        with open(rp, "wb") as f:
+            r = subprocess.run([gh_exe, "recordpair", planf], stdout=f, stderr=subprocess.PIPE, timeout=1800)
+        if r.returncode != 0:
+            note = None
+            try:
+                note = json.load(open(plan["crash_note"]))
+            except Exception:
+                pass
+            out["crashes"].append({"family_index": fam, "rc": r.returncode, "note": note})
+            continue
+        for ln in r.stderr.decode(errors="replace").splitlines():
+            if ln.startswith("SUMMARY "):
+                out["equal_pairs"] += json.loads(ln[8:])["pairs_showing_the_same_graph"]
+        cd = rp + ".d"
+        os.makedirs(cd, exist_ok=True)
+        cfg = vf.write_cfg(os.path.join(cd, "PairTrace.cfg"), {}, invariants=["PairRecordOK"])
+        txt = open(cfg).read().replace("CONSTANTS\n", "")
+        open(cfg, "w").write(txt)
+        env = _tlc_env()
+        env["RECORDS"] = rp
+        t = subprocess.run(vf.tlc_cmd("PairTrace.tla", cfg, os.path.join(cd, "md"), workers=4, heap="4g", extra=["-continue"]),
+                           cwd=vf.SPEC, stdout=subprocess.PIPE, stderr=subprocess.STDOUT, timeout=1800, env=env)
+        text = t.stdout.decode(errors="replace")
+        open(os.path.join(cd, "tlc.log"), "w").write(text)
+        shutil.rmtree(os.path.join(cd, "md"), ignore_errors=True)
+        p = vf.parse_tlc_output(text)
+        lines = open(rp).readlines()
+        bad = sorted({int(m.group(1)) for m in re.finditer(r"Invariant PairRecordOK is violated.*?idx = (\d+)", text, re.S)})
+        if not bad and not p["ok"]:
+            raise vf.Infra("PairTrace validation failed to run: %s (%s)" % (p["error"], os.path.join(cd, "tlc.log")))
+        out["records"] += len(lines)
+        out["accepted"] += len(lines) - len(bad)
+        out["tlc_states"] += p["distinct"]
+        for b in bad[:2]:
+            out["rejected"].append({"family_index": fam, "index": b, "record": json.loads(lines[b - 1])})
+    return out
